@@ -14,7 +14,7 @@
        derivation paths print/parse round trip; key encodings round trip. *)
 From Coq Require Import String.
 From Coq Require Import List NArith ZArith Bool.
-From Evm Require Import SigWrap HdPath Eip712Enc SigWrapProofs HdPathProofs Eip712EncProofs Eip712WalkProofs.
+From Evm Require Import SigWrap HdPath Eip712Enc SigWrapProofs HdPathProofs Eip712EncProofs Eip712WalkProofs Eip712ViewProofs.
 Import ListNotations.
 Open Scope N_scope.
 
@@ -298,6 +298,57 @@ Theorem C19_render_injective_or_collision : forall H,
   (exists v, doc_view j1 = Some v /\ doc_view j2 = Some v) \/ collision H.
 Proof. exact render_injective. Qed.
 Print Assumptions C19_render_injective_or_collision.
+
+(* THE CAPSTONE, at the level of the JSON documents.  jsame (Proofs/Eip712ViewProofs.v) = the same members, with
+   identical strings and booleans, the same integers (a JSON number or a numeric string, modulo 2^256 — equal
+   outright within the int64 range, C19_same_integer), the same addresses, recursively through arrays and objects.
+   Two sign documents of the covered class with the same rendering have member-wise equal flattened messages
+   (m = the document with "msgs":[a,b,..] spelled "msg0":a,"msg1":b,..): the rendering is injective in chain id,
+   account number, sequence, fee amount, gas limit, memo and every message field — or a collision of H is exhibited. *)
+Theorem C19_render_injective_json : forall H,
+  (forall x, length (H x) = 32%nat) ->
+  forall j1 j2 r, doc_ok j1 -> doc_ok j2 -> render H j1 = Some r -> render H j2 = Some r ->
+  (exists c1 T1 m1 c2 T2 m2, doc_parts j1 = Some (c1, T1, m1) /\ doc_parts j2 = Some (c2, T2, m2) /\ jsame (JObj m1) (JObj m2))
+  \/ collision H.
+Proof. exact render_injective_json. Qed.
+Print Assumptions C19_render_injective_json.
+
+(* the step from the typed view back to the document, for arbitrary type maps with distinct member names: two objects
+   (unique keys at every depth) that are read to the same typed value have the same members — in particular no
+   member that the types do not declare: the reader refuses data with more members than the type ("extra data") *)
+Theorem C19_same_reading_same_members : forall k1 k2 T1 T2 ty1 ty2 d1 d2 t,
+  tymap_nodup T1 = true -> tymap_nodup T2 = true -> valok (JObj d1) -> valok (JObj d2) ->
+  read_struct k1 T1 ty1 d1 = Some t -> read_struct k2 T2 ty2 d2 = Some t -> jsame (JObj d1) (JObj d2).
+Proof. exact read_struct_same. Qed.
+Print Assumptions C19_same_reading_same_members.
+
+Theorem C19_same_atom : forall ty v1 v2 t, read_prim ty v1 = Some t -> read_prim ty v2 = Some t -> atom_same v1 v2.
+Proof. exact read_prim_same. Qed.
+Print Assumptions C19_same_atom.
+
+Theorem C19_same_integer : forall z1 z2,
+  (z1 mod TWO256 = z2 mod TWO256)%Z -> (- 2 ^ 255 <= z1 < 2 ^ 255)%Z -> (- 2 ^ 255 <= z2 < 2 ^ 255)%Z -> z1 = z2.
+Proof. exact same_mod_small. Qed.
+Print Assumptions C19_same_integer.
+
+(* derived type maps have distinct member names in every type (also Tx: five fixed members + msg0..msgN) and the
+   flattened message keeps unique keys: the hypotheses of C19_same_reading_same_members hold for every document *)
+Theorem C19_derived_types_distinct_members : forall j c T m,
+  doc_ok j -> doc_parts j = Some (c, T, m) -> tymap_nodup T = true /\ valok (JObj m).
+Proof. exact doc_types_nodup. Qed.
+Print Assumptions C19_derived_types_distinct_members.
+
+(* typed messages of the staking precompile: equal hashes => member-wise equal domain (incl. chainId) and message *)
+Theorem C19_typed_message_hash_injective_json : forall H,
+  (forall x, length (H x) = 32%nat) ->
+  forall T1 T2 p1 p2 dom1 dom2 m1 m2 h,
+  tymap_ok T1 = true -> tymap_ok T2 = true -> tymap_nodup T1 = true -> tymap_nodup T2 = true ->
+  assoc EIP712DOMAIN T1 <> None -> assoc EIP712DOMAIN T2 <> None -> assoc p1 T1 <> None -> assoc p2 T2 <> None ->
+  valok (JObj dom1) -> valok (JObj dom2) -> valok (JObj m1) -> valok (JObj m2) ->
+  typed_message_hash H T1 p1 dom1 m1 = Some h -> typed_message_hash H T2 p2 dom2 m2 = Some h ->
+  (jsame (JObj dom1) (JObj dom2) /\ jsame (JObj m1) (JObj m2)) \/ collision H.
+Proof. exact typed_message_hash_injective_json. Qed.
+Print Assumptions C19_typed_message_hash_injective_json.
 
 (* the type derivation of ethereum/eip712/types.go always yields a well-formed type map containing the root types
    (an invariant of recursivelyAddTypesToRoot / addTypesToRoot / addMsgTypesToRoot over all documents of the class) *)
